@@ -2282,9 +2282,18 @@ func (f *fragment) importRoaring(ctx context.Context, data []byte, clear bool) e
 		// Invalidate block checksum.
 		delete(f.checksums, int(rowID/HashBlockSize))
 
+		// Update row count if they have increased.
+		if rowID > f.maxRowID {
+			f.maxRowID = rowID
+			f.stats.Gauge("rows", float64(f.maxRowID), 1.0)
+		}
+
 		if updateCache {
 			anyChanged = true
-			f.cache.BulkAdd(rowID, f.cache.Get(rowID)+uint64(changes))
+			// The cached count can't be used as the base for the delta:
+			// the row may have been evicted or never admitted.
+			n := f.storage.CountRange(rowID*ShardWidth, (rowID+1)*ShardWidth)
+			f.cache.BulkAdd(rowID, n)
 		}
 	}
 	// we only set this if we need to update the cache
